@@ -9,7 +9,9 @@
 (*                 call has returned (asynchronous calls: when their         *)
 (*                 callback has run; completions of the transport are        *)
 (*                 inline).  plen = -1: the caller never called SetPayload.  *)
-(*                 err = nil | toobig | cancelled | other | panic            *)
+(*                 err = nil | toobig | cancelled | other | panic | nocb     *)
+(*                 (nocb: the callback of an asynchronous call did not run - *)
+(*                 not judged here, the frame is still expected; C17)        *)
 (*   Ping(id, plen, err)  a ping the peer sent was read with NextFrame: the  *)
 (*                 stream owes a Pong with the same payload                  *)
 (*   Wire(hdr, fin, rsv, op, m, dl, minimal, pid)                            *)
@@ -32,7 +34,8 @@
 (* Rule keys:                                                                *)
 (*  C16/unmasked  C16/length-encoding  C16/payload  C16/header  C16/order    *)
 (*  C16/trailing-bytes/{extra-frame,incomplete}  C16/oversize-written        *)
-(*  C16/missing  C16/panic/<api>:<src>  C16/harness/...                      *)
+(*  C16/missing  C16/refused-within-max  C16/panic/<api>:<src>               *)
+(*  C16/harness/...                                                          *)
 EXTENDS WsFrame
 
 VARIABLES wmax,     \* configured maximum message size
@@ -55,7 +58,8 @@ MessageApi(api) == api \in {"Write", "AsyncWrite"}
 ObsCall(e) ==
   LET n == IF e.plen < 0 THEN 0 ELSE e.plen IN
   IF e.err = "panic" THEN Fail("C16/panic/" \o e.api \o ":" \o e.src)
-  ELSE IF e.err # "nil" THEN
+  ELSE IF MessageApi(e.api) /\ e.err = "toobig" /\ n <= wmax THEN Fail("C16/refused-within-max")
+  ELSE IF e.err \notin {"nil", "nocb"} THEN
        /\ refused' = refused \cup {e.id}
        /\ UNCHANGED <<wmax, expq, bad>>
   ELSE IF MessageApi(e.api) /\ n > wmax THEN Fail("C16/oversize-written")
